@@ -864,7 +864,9 @@ Definition dispatch_ettdb (sinbits : Z -> Z) (name : string) (a : list tok) : op
       let t1 := norm_ts t1 in let t2 := norm_ts t2 in let v1 := pval c1 n1 in let v2 := pval c2 n2 in
       let x := val (dur (conv (mk_epoch c1 n1 t1) t2)) in let y := val (dur (conv (mk_epoch c2 n2 t1) t2)) in
       Some ([tcmp (Z.compare x y)],
-            if ((is_uniform_id t1 && is_float_id t2) || (is_float_id t1 && is_uniform_id t2)) && (100 <? Z.abs (v1 - v2))
+            if ((is_uniform_id t1 && is_float_id t2) || (is_float_id t1 && is_uniform_id t2)
+                || (is_float_id t1 && is_float_id t2 && (Z.abs v1 <=? SPAN_10K_YEARS_NS) && (Z.abs v2 <=? SPAN_10K_YEARS_NS)))
+               && (100 <? Z.abs (v1 - v2))
                && (Z.abs v1 <=? SPAN_10K_YEARS_NS + J2000_NS) && (Z.abs v2 <=? SPAN_10K_YEARS_NS + J2000_NS)
                && (- SPAN_10K_YEARS_NS <=? v1) && (- SPAN_10K_YEARS_NS <=? v2)
             then [tcmp (Z.compare v1 v2)] else nospec)
